@@ -136,10 +136,13 @@ func main() {
 	var jobs []sched.Job
 	specs := map[string]func() *txnh.TxnScenario{}
 	for _, bk := range common.BackendsTier(run.Thorough()) {
-		for _, m := range bk.Modes {
-			if m.Async || m.OnePC {
-				// the async / 1PC variants are added only for committing programs on backends that implement them
-			}
+		modes := bk.Modes
+		if bk.Name == "mocktikv" {
+			// the mock implements neither async commit nor one-phase commit: it ignores the request flags, which
+			// the client must treat as "the store declined" and fall back to ordinary 2PC (TiKV may decline too)
+			modes = append(append([]txnh.Mode{}, modes...), txnh.Mode{OnePC: true}, txnh.Mode{Async: true})
+		}
+		for _, m := range modes {
 			steps := optSteps()
 			if m.Pessimistic {
 				steps = pessSteps()
@@ -149,7 +152,18 @@ func main() {
 				if bk.Name == "unistore" && !run.Thorough() {
 					d = 1
 				}
-				for _, p := range programs(steps, d) {
+				progs := programs(steps, d)
+				if bk.Name == "unistore" && !run.Thorough() && !m.Pessimistic {
+					// quick: on top of the one-step programs, the two-region writers whose 1PC / async attempt has
+					// to fall back or fails in one region only
+					for _, q := range programs(steps, 2) {
+						switch q.name {
+						case "set(a);set(b);commit", "set(b);set(a);commit", "insert(a);set(b);commit", "set(a);delete(b);commit", "set(a);set(b);rollback":
+							progs = append(progs, q)
+						}
+					}
+				}
+				for _, p := range progs {
 					for _, ct := range contenders {
 						bk, m, lo, p, ct := bk, m, lo, p, ct
 						name := fmt.Sprintf("%s/%s/%s/T=%s/C=%s", bk.Name, lo.Name, m, p.name, ct.name)
